@@ -34,7 +34,26 @@ sys.path.insert(0, os.path.join(ROOT, "tools"))
 from registry import PROPS, FIXES  # noqa: E402
 
 
-def sh(cmd, cwd=None, timeout=None, stdin=subprocess.DEVNULL, stdout=subprocess.PIPE, stderr=subprocess.PIPE):
+def _stdin_null():
+    """An empty stdin for every subprocess.  /dev/null has been seen replaced by a regular file full of junk in this
+    sandbox (something ran as root with `-o /dev/null`); cargo's `rustc -` probe then reads the junk and fails.  If
+    /dev/null is not a character device an empty scratch file is used instead."""
+    import stat
+    try:
+        if stat.S_ISCHR(os.stat(os.devnull).st_mode):
+            return subprocess.DEVNULL
+    except OSError:
+        pass
+    os.makedirs(os.path.join(os.path.dirname(os.path.abspath(__file__)), "work"), exist_ok=True)
+    p = os.path.join(os.path.dirname(os.path.abspath(__file__)), "work", "empty-stdin")
+    open(p, "w").close()
+    return open(p)
+
+
+STDIN_NULL = _stdin_null()
+
+
+def sh(cmd, cwd=None, timeout=None, stdin=STDIN_NULL, stdout=subprocess.PIPE, stderr=subprocess.PIPE):
     return subprocess.run(cmd, cwd=cwd, env=ENV, timeout=timeout, stdin=stdin, stdout=stdout,
                           stderr=stderr, text=True)
 
@@ -81,7 +100,7 @@ def cargo_build(avx2=False):
     if avx2:
         env["RUSTFLAGS"] = "-C target-feature=+avx2"
         env["CARGO_TARGET_DIR"] = os.path.join(HARNESS, "target-avx2")
-    r = subprocess.run(cmd, cwd=HARNESS, env=env, timeout=3600, stdin=subprocess.DEVNULL, stdout=subprocess.PIPE,
+    r = subprocess.run(cmd, cwd=HARNESS, env=env, timeout=3600, stdin=STDIN_NULL, stdout=subprocess.PIPE,
                        stderr=subprocess.PIPE, text=True)
     return r.returncode == 0, (r.stdout + r.stderr)
 
@@ -95,7 +114,7 @@ def cli_build():
     env = dict(ENV)
     env["CARGO_TARGET_DIR"] = CLI_TARGET
     cmd = ["cargo", "build", "--release", "--offline", "-p", "dictgen", "-p", "compile", "-p", "map", "-p", "tokenize"]
-    r = subprocess.run(cmd, cwd="/repo", env=env, timeout=3600, stdin=subprocess.DEVNULL, stdout=subprocess.PIPE,
+    r = subprocess.run(cmd, cwd="/repo", env=env, timeout=3600, stdin=STDIN_NULL, stdout=subprocess.PIPE,
                        stderr=subprocess.PIPE, text=True)
     if r.returncode != 0:
         return False, (r.stdout + r.stderr)
@@ -110,7 +129,7 @@ def cli_build():
     with open(os.path.join(ex, "Cargo.toml"), "w") as f:
         f.write(toml + "\n[workspace]\n")
     shutil.copy("/repo/Cargo.lock", os.path.join(ex, "Cargo.lock"))
-    r2 = subprocess.run(["cargo", "build", "--release", "--offline"], cwd=ex, env=env, timeout=3600, stdin=subprocess.DEVNULL,
+    r2 = subprocess.run(["cargo", "build", "--release", "--offline"], cwd=ex, env=env, timeout=3600, stdin=STDIN_NULL,
                         stdout=subprocess.PIPE, stderr=subprocess.PIPE, text=True)
     shutil.rmtree(ex, ignore_errors=True)
     return r2.returncode == 0, (r.stdout + r.stderr + r2.stdout + r2.stderr)
@@ -262,7 +281,7 @@ def run_stream(pid, idx, hargs, per_case_timeout=20, binary=None):
     henv["VERIF_CLI_BIN"] = CLI_BIN
     henv["VERIF_CLI_WORK"] = os.path.join(d, "cli-scratch-%d" % os.getpid())
     with open(cases, "w") as f:
-        r = subprocess.run([binary or VHARNESS] + hargs, env=henv, stdin=subprocess.DEVNULL, stdout=f,
+        r = subprocess.run([binary or VHARNESS] + hargs, env=henv, stdin=STDIN_NULL, stdout=f,
                            stderr=subprocess.DEVNULL, timeout=7200)
     import shutil
     shutil.rmtree(henv["VERIF_CLI_WORK"], ignore_errors=True)
@@ -455,7 +474,7 @@ def check(pid, tier, seed, replay=None):
             pf = info.get("prop_fail")
             if pf:
                 prop_failures += 1
-                failing.append((pf, info.get("why", pf), f"{with_def(line)}\nMODEL {mobs}\nP {extra}"))
+                failing.append((pf, info.get("why", pf), f"{with_def(line)}\nMODEL {mobs}\nP {extra}", classify))
             elif info.get("corr_fail"):
                 model_disagreements += 1
                 broken.append(("corr", info["corr_fail"], f"{with_def(line)}\nMODEL {mobs[:800]}\nP {extra}"))
@@ -482,17 +501,48 @@ def check(pid, tier, seed, replay=None):
     rc = 0
     printed = set()
     unmatched = []
-    for sig, why, content in failing:
+    for item in failing:
+        sig, why, content = item[0], item[1], item[2]
         k = next((k for k in known if k.get("signature") == sig), None)
         if k:
             if sig not in printed:
                 print(f"KNOWN-FINDING: property={pid} {k['what']}")
                 printed.add(sig)
         else:
-            unmatched.append((sig, why, content))
+            unmatched.append((sig, why, content, item[3] if len(item) > 3 else None))
     # pinned instances of known findings are replayed by the streams themselves (classify tags them)
     if unmatched:
-        sig, why, content = unmatched[0]
+        # among the failing cases of the first signature take the smallest, then shrink it (tok cases)
+        sig = unmatched[0][0]
+        same = [u for u in unmatched if u[0] == sig]
+        sig, why, content, fclassify = min(same, key=lambda u: len(u[2]))
+        if fclassify is not None and replay is None and content.startswith("def ") and "\ntok " in content:
+            try:
+                from shrink import shrink_tok
+
+                def still_fails(dl, tl):
+                    sp = os.path.join(WORK, pid, "shrink_case.txt")
+                    with open(sp, "w") as f:
+                        f.write(dl + "\n" + tl + "\n")
+                    res, _ = run_stream(pid, "shrink", ["replayfile", sp])
+                    for (line, impl, mobs, extra) in (res or []):
+                        if line.startswith("tok "):
+                            return fclassify(line, impl, mobs, extra).get("prop_fail") == sig
+                    return False
+                r = shrink_tok(content, still_fails)
+                if r is not None:
+                    dl, tl, used = r
+                    res, _ = run_stream(pid, "shrink", ["replayfile", os.path.join(WORK, pid, "shrink_case.txt")]) if still_fails(dl, tl) else (None, None)
+                    tail = ""
+                    for (line, impl, mobs, extra) in (res or []):
+                        if line.startswith("tok "):
+                            tail = f"{line}\nMODEL {mobs}\nP {extra}"
+                    if tail:
+                        small = f"{dl}\n{tail}"
+                        if len(small) < len(content):
+                            content = small + f"\n# (shrunk with {used} evaluations from a case of {len(content)} bytes)"
+            except Exception as e:  # the shrinker must never change a verdict
+                notes.append("shrinker failed: %r" % (e,))
         p = write_replay(pid, "failing_" + re.sub(r"\W+", "_", sig)[:40], f"# {why}\n{content}\n")
         print(f"VIOLATION property={pid} replay={p}")
         rc = 1
